@@ -40,12 +40,12 @@ func bits(f float64) uint64 {
 }
 
 type gcase struct {
-	volume                      float64
-	repeat, freq, peak, stddev  int64 // ns
-	weights                     []float64
-	windows                     int
-	firstWindow                 int64 // absolute window number (since year 1)
-	viaRate                     bool
+	volume                     float64
+	repeat, freq, peak, stddev int64 // ns
+	weights                    []float64
+	windows                    int
+	firstWindow                int64 // absolute window number (since year 1)
+	viaRate                    bool
 }
 
 func gen(r *kit.Rand) gcase {
@@ -92,11 +92,24 @@ func TestC11(t *testing.T) {
 			continue
 		}
 		var rate func(time.Time) int
+		blanks := 0
+		if c.viaRate && r.Bool() {
+			blanks = int(r.Range(1, 9))
+			o.Count("weights-string", "with empty entries")
+		}
 		crashedCtor, _ := kit.Guard(func() {
 			if c.viaRate {
 				ws := make([]string, len(c.weights))
 				for k, w := range c.weights {
 					ws[k] = strconv.FormatFloat(w, 'g', -1, 64)
+				}
+				// empty entries in the weights string are skipped (a leading, doubled or trailing comma)
+				if len(ws) > 0 && blanks > 0 {
+					at := blanks % (len(ws) + 1)
+					ws = append(ws[:at:at], append([]string{""}, ws[at:]...)...)
+					if blanks%3 == 0 {
+						ws = append(ws, "")
+					}
 				}
 				rates, e := tg.CalculateGaussianRate(c.volume, 0, time.Duration(c.repeat), time.Duration(c.freq), time.Duration(c.peak),
 					time.Duration(c.stddev), strings.Join(ws, ","), "none")
